@@ -70,6 +70,12 @@ CLAIMED = {
   "note": "PARTIAL: the four laws are hypotheses of the monotonicity theorem, not yet theorems about the model's pass (they are statements about a single pass, checked per run by the budget sweep and the C02 certificate); the inner budget of asm blocks is the same option and is part of the pass - its variation is covered by the sweep only. Trusted: Lean kernel + three standard axioms; whole-assembler model tied by differential execution.",
   "technique": "Lean 4 proof (simulation of two budgets, induction on fuel) + budget sweep on implementation and model",
  },
+ "C08": {
+  "text": "Lean 4 theorems about the model of match_instr and the prefix index (Casm/Props/C08.lean): index_candidates_are_rules (for every prefix the index proposes only rules of top-level blocks), optimised_matches_are_matches (every match found through the index is found by the full scan), optimised_rejects_what_full_scan_rejects, same_matches_of_index_complete (both settings find exactly the same matches wherever the index proposes every matching rule); index_complete_false is the kernel-checked witness (finding F10, `h a l t`) that this last hypothesis fails when a blank lies inside the leading literal. Search and tie: every program of the instruction-set generator (prefix-sharing, dotted and digit-leading mnemonics; -d defines overriding constants), of the size-cascading and asm-block generators, the repository's test inputs and their token-level mutants is assembled under the four switch combinations at budget 30 and two tighter budgets by the implementation and by the model; at a generous budget the four results must be identical; a matcher difference is attributed to F10 only if the model's matcherDiff says every differing instruction has an ignorable token inside the leading literal; a tight-budget difference only if it is a pure convergence failure (finding F29).",
+  "design_ref": "DESIGN.md section 6, C08",
+  "note": "PARTIAL: IndexComplete under the guard noBlankInLeadingLiteral, and the harmlessness of the static-value short-cut (staticallyKnown_sound), are not theorems yet - they rest on the four-way differential runs of implementation and model. Trusted: Lean kernel + three standard axioms; whole-assembler model tied by differential execution under all four settings.",
+  "technique": "Lean 4 proof (list membership, kernel-evaluated counterexample) + four-way differential execution of implementation and model",
+ },
 }
 
 NOT_YET = {}
